@@ -173,7 +173,11 @@ func (l *GradientLimit) OnSample(startTime int64, rtt int64, inFlight int, didDr
 	// so set to 1.0 to indicate no queuing.  Otherwise calculate the slope and don't
 	// allow it to be reduced by more than half to avoid aggressive load-shedding due to
 	// outliers.
-	gradient := math.Max(0.5, math.Min(1.0, l.rttTolerance*float64(rttNoLoad)/float64(rtt)))
+	// a zero RTT carries no latency information; dividing by it would make the gradient 0/0 = NaN
+	gradient := 1.0
+	if rtt > 0 {
+		gradient = math.Max(0.5, math.Min(1.0, l.rttTolerance*float64(rttNoLoad)/float64(rtt)))
+	}
 
 	var newLimit float64
 	// Reduce the limit aggressively if there was a drop
